@@ -31,6 +31,7 @@ type Spec struct {
 	Conns  int `json:"conns"`
 	Cache  int `json:"cache"`  // -1: nil cache, 0: disabled, >0 capacity
 	Batch  int `json:"batch"`  // seed offset so that batches differ
+	Shared128First bool `json:"shared_secret_aes128_first,omitempty"` // the key list starts with an aes-128-gcm key of the SAME secret
 }
 
 func (s Spec) String() string { b, _ := json.Marshal(s); return string(b) }
@@ -46,9 +47,16 @@ type reflRes struct {
 }
 
 func build(s Spec) *engine.Scenario {
-	key := world.MakeKey("salt-key", world.Ciphers[s.Cipher], "s@lt")
+	secret := "s@lt"
+	if s.Shared128First {
+		// a secret nothing else in this process has used, so that its first use is the aes-128 key
+		secret = fmt.Sprintf("s@lt-128-first-%d", s.Cipher)
+	}
+	key := world.MakeKey("salt-key", world.Ciphers[s.Cipher], secret)
 	other := world.MakeKey("other", world.Ciphers[(s.Cipher+2)%4], "0ther")
-	entry := service.MakeCipherEntry(key.ID, key.K, key.Secret)
+	// "recognises as its own for that key": the marking generator of the key's secret, taken
+	// directly (not through MakeCipherEntry, which is part of what is being checked)
+	recogniser := service.NewServerSaltGenerator(secret)
 	var salts []string
 	var unrecognised []string
 	var statuses []string
@@ -59,7 +67,11 @@ func build(s Spec) *engine.Scenario {
 		vrt.Seed = uint64(1000 + s.Batch)
 		vw := vnet.Reset()
 		hk.ResetLogs()
-		w := world.NewTCP([]*world.Key{other, key}, s.Cache, T)
+		list := []*world.Key{other, key}
+		if s.Shared128First && s.Cipher != 3 {
+			list = []*world.Key{world.MakeKey("same-secret-aes128", world.Ciphers[3], key.Secret), other, key}
+		}
+		w := world.NewTCP(list, s.Cache, T)
 		w.Start()
 		reply := world.Pattern(9, 120)
 		tgt := world.StartTarget("93.184.216.34:80", func(t *world.Target, i int, c *vnet.TCPConn) {
@@ -83,7 +95,7 @@ func build(s Spec) *engine.Scenario {
 			}
 			salt := cl.Got[:saltLen]
 			salts = append(salts, hex.EncodeToString(salt))
-			if saltLen >= 20 && !entry.SaltGenerator.IsServerSalt(salt) {
+			if saltLen >= 20 && !recogniser.IsServerSalt(salt) {
 				unrecognised = append(unrecognised, hex.EncodeToString(salt))
 			}
 			if st := w.Conns[len(w.Conns)-1].Status(); st != "OK" {
@@ -192,6 +204,9 @@ func specs(tier string) []Spec {
 		for b := 0; b < batches; b++ {
 			cache := []int{-1, 0, 100}[b%3]
 			out = append(out, Spec{Cipher: c, Conns: per, Cache: cache, Batch: b})
+		}
+		if c != 3 {
+			out = append(out, Spec{Cipher: c, Conns: 5, Cache: -1, Batch: 900 + c, Shared128First: true})
 		}
 	}
 	return out
